@@ -1,4 +1,5 @@
 import Sgz.Proofs.Fetch
+import Sgz.Model.Container
 /-!
 # C07 — I/O proportionality
 
@@ -64,6 +65,39 @@ theorem inline_group (g : Geo) (hg : g.Valid) (h0 : g.b0 = 4) (k B : Nat) :
   rw [needed_iff g hg _ _ _ _ _ _ _ (by omega) hg.2.2.2.2.2.2.2.2.2.1 hg.2.2.2.2.2.2.2.2.2.2,
     needed_iff g hg _ _ _ _ _ _ _ (by omega) hg.2.2.2.2.2.2.2.2.2.1 hg.2.2.2.2.2.2.2.2.2.2, h0,
     cdiv_succ _ _ (by decide), cdiv_aligned _ _ (by decide), Nat.mul_div_cancel_left _ (by decide : 0 < 4)]
+
+/-- regenerating a trace header of a regular file costs 4 bytes per stored array: exactly `nArrays` reads of 4 bytes, each
+inside its own array, pairwise disjoint -/
+theorem header_regeneration_cost (version nHB d len nArrays t : Nat) (ht : 4 * t + 4 ≤ len) :
+    (Container.headerReads version nHB d len nArrays t).length = nArrays
+    ∧ (∀ f ∈ Container.headerReads version nHB d len nArrays t, f.2 = 4)
+    ∧ (∀ k, k < nArrays → (Container.headerReads version nHB d len nArrays t)[k]? =
+        some (Container.readerFooterOffset version nHB d len k + 4 * t, 4))
+    ∧ SortedFetches (Container.headerReads version nHB d len nArrays t) := by
+  unfold Container.headerReads
+  refine ⟨by simp, ?_, ?_, ?_⟩
+  · intro f hf; simp only [List.mem_map] at hf; obtain ⟨k, _, rfl⟩ := hf; rfl
+  · intro k hk; simp [hk]
+  · apply pairwise_range_map
+    intro a b hab _
+    simp only [Container.readerFooterOffset]
+    have hs : len ≤ (if Ver.paddedFooter version = true then pad len 512 else len) := by
+      split
+      · exact le_pad len 512 (by decide)
+      · exact Nat.le_refl _
+    generalize (if Ver.paddedFooter version = true then pad len 512 else len) = S at *
+    have h1 : (a + 1) * S ≤ b * S := Nat.mul_le_mul_right S hab
+    rw [Nat.add_mul, Nat.one_mul] at h1
+    omega
+
+/-- opening a reader touches only the header blocks -/
+theorem open_touches_header_blocks_only (nHB : Nat) (h : 1 ≤ nHB) :
+    ∀ f ∈ Container.openReads nHB, f.1 + f.2 ≤ 4096 * nHB := by
+  intro f hf
+  unfold Container.openReads at hf
+  split at hf
+  · simp at hf; subst hf; simp; omega
+  · simp at hf; rcases hf with rfl | rfl <;> simp <;> omega
 
 -- non-vacuity
 example : (⟨5, 6, 300, 4, 4, 256, 64⟩ : Geo).Valid ∧ (⟨70, 65, 9, 64, 64, 4, 16⟩ : Geo).Valid
